@@ -531,12 +531,14 @@ class OpProgram:
             dn = self.dense
             entry = {"rank": "X", "level": 0, "prefix": [], "expr": ["dense", list(self.dense_coords)], "fibers": {},
                      "z": None, "bodies": [], "outcomes": [], "dense": True}
+            byval = dn.get("byval") and self.zout is None      # (a by-value walk of the OUTPUT would hand out temporaries)
             if dn["mode"] == "shape":
-                it = d.iterShapeRef()
+                it = d.iterShape() if byval else d.iterShapeRef()
             elif dn["mode"] == "active":
-                it = d.iterActiveShapeRef()
+                it = d.iterActiveShape() if byval else d.iterActiveShapeRef()
             else:
-                it = d.iterRangeShapeRef(dn["lo"], dn["hi"], dn["step"])
+                it = d.iterRangeShape(dn["lo"], dn["hi"], dn["step"]) if byval else \
+                    d.iterRangeShapeRef(dn["lo"], dn["hi"], dn["step"])
         else:
             entry = {"rank": "X", "level": 0, "prefix": [], "expr": ["fiber", "d"], "fibers": {"d": snap_fiber(d)},
                      "z": None, "bodies": [], "outcomes": []}
@@ -1176,7 +1178,7 @@ def opnest_cases(draw):
         lo = draw(st.sampled_from(list(range(n))))
         hi = draw(st.sampled_from(list(range(lo + 1, n + 1))))
         dense = {"mode": mode, "n": n, "lo": lo, "hi": hi, "step": draw(st.sampled_from([1, 1, 2])),
-                 "z_outer": draw(st.sampled_from([True, False]))}
+                 "z_outer": draw(st.sampled_from([True, False])), "byval": draw(st.sampled_from([False, True]))}
         ninst = len(dense_coords(dense))
     else:
         ninst = len([1 for _, v in outer if v != 0]) if outer is not None else 1
@@ -1239,6 +1241,7 @@ def check_opnest(case, rec):
     if dn is not None:
         rec.cls("dense-" + dn["mode"])
         rec.cls("dense-walk-of-the-output", prog.zout is not None)
+        rec.cls("dense-by-value", bool(dn.get("byval")) and prog.zout is None)
         rec.cls("dense-inner-rows-at-nonzero-outer-coordinate",
                 any(t.rows and any(pt[0] != 0 for _, pt, _ in t.rows) for (r, ty), t in traces.items()
                     if prog.levels[r] == 1))
@@ -1331,7 +1334,7 @@ def coverage_warnings(rec):
     for k, floor in (("kernels:inserting-populate", 0.03), ("kernels:stored-empty-element", 0.2),
                      ("kernels:rows-intersect", 0.3), ("kernels:rows-populate_write", 0.2),
                      ("kernels:lines>5", 0.12), ("kernels:head-left-under-finger", 0.15),
-                     ("opnests:inserting-populate", 0.1), ("opnests:rows-project", 0.08),
+                     ("opnests:inserting-populate", 0.06), ("opnests:rows-project", 0.08),
                      ("opnests:rows-populate_read", 0.1), ("opnests:stored-empty-element", 0.3),
                      ("opnests:created-then-removed", 0.05)):
         n = max(1, tot.get(k.split(":", 1)[0], 0))
@@ -1371,4 +1374,22 @@ def _pin_p11():
     return None
 
 
-PINNED = {P11: _pin_p11}
+def _pin_p36():
+    """an outer by-value dense walk (iterShape) over X with a traced rank K below: the K rows written under
+    X=2 carry X=2"""
+    K.reset_metrics()
+    t = Tensor.fromUncompressed(["X", "K"], [[1, 2], [0, 0], [3, 4]])
+    Metrics.beginCollect()
+    try:
+        Metrics.trace("K", type_="iter", consumable=True)
+        for x, sub in t.getRoot().iterShape():
+            for _ in sub:
+                pass
+        rows = Metrics.consumeTrace("K", "iter")
+    finally:
+        Metrics.endCollect()
+    xs = [row[2] for row in rows[1:]]
+    return None if xs == [0, 0, 2, 2] else f"K-iter rows under an iterShape() walk of X carry X = {xs}, expected [0, 0, 2, 2]"
+
+
+PINNED = {P11: _pin_p11, "P36-byvalue-dense-walk-stale-point": _pin_p36}
